@@ -25,7 +25,7 @@ RULE = ("WCSs of 1..3 pixel axes mixing spectral / temporal / generic / celestia
 ASSUMPTIONS = ["wcslib (astropy.wcs) implements the -TAB index formula of Paper III — measured by the node-by-node comparison",
                "PARTIAL: between nodes only agreement within the linear-interpolation error of the sampled function is claimed (tested on "
                "linear / mildly curved axes)"]
-PINS = ["gwcs/wcs.py::WCS._to_fits_tab", "gwcs/wcs.py::WCS.to_fits_tab", "gwcs/wcs.py::WCS._separable_groups",
+PINS = ["gwcs/wcs.py::WCS._to_fits_tab", "gwcs/wcs.py::WCS.to_fits_tab", "gwcs/wcs.py::WCS.to_fits", "gwcs/wcs.py::WCS._separable_groups",
         "gwcs/wcs.py::_fix_transform_inputs"]
 HEADER = ("From Coq Require Import ZArith QArith List Bool. Import ListNotations. Open Scope Z_scope.\nFrom GW Require Import C11.Tab.\n")
 D = 64
@@ -93,14 +93,24 @@ def run(ctx):
         scalar = rng.random() < 0.5
         if scalar:
             samp = [samp[0]] * n
-        w.bounding_box = bb[0] if n == 1 else bb
+        # the box is either the WCS's own or passed to the exporter (the WCS then has none, or a different one that must be ignored)
+        box_as_arg = rng.random() < 0.5
+        kwbox = {}
+        if box_as_arg:
+            kwbox = {"bounding_box": bb[0] if n == 1 else bb}
+            if rng.random() < 0.5:
+                w.bounding_box = (0.0, 2.0) if n == 1 else tuple((0.0, 2.0 + i) for i in range(n))
+        else:
+            w.bounding_box = bb[0] if n == 1 else bb
+        via_to_fits = kind == "cube" or rng.random() < 0.4
         try:
             with warnings.catch_warnings():
                 warnings.simplefilter("ignore")
-                if kind == "cube":
-                    hdr, hdus = w.to_fits(sampling=(samp[0] / D if scalar else tuple(s / D for s in samp)), degree=1)
+                if via_to_fits:
+                    hdr, hdus = w.to_fits(sampling=(samp[0] / D if scalar else tuple(s / D for s in samp)), degree=1, **kwbox)
+                    hdus = list(hdus)
                 else:
-                    hdr, hdu = w.to_fits_tab(sampling=(samp[0] / D if scalar else tuple(s / D for s in samp)))
+                    hdr, hdu = w.to_fits_tab(sampling=(samp[0] / D if scalar else tuple(s / D for s in samp)), **kwbox)
                     hdus = [hdu]
         except Exception as e:  # noqa
             problems.append((f"{kind}: export raised {type(e).__name__}: {str(e)[:150]}", {"kind": kind, "box": bb, "sampling": samp}, None))
